@@ -138,6 +138,23 @@ def units(tier):
                 _obl(c, 'post:deletes-exactly-the-nested-entry', cfg.store == exp, 'store=%r' % (cfg.store,))
         method_unit('keypath:del[depth=%d]' % depth, 'SiftConfig.__delitem__', mk_get, post_del, raises={Exception: exc_deep})
 
+    # ---- absent entries: a key path reads / deletes what nested indexing does - for an absent entry that is a KeyError at every depth
+    for akey in ('zz', 'a/zz', 'a/b/zz', 'zz/b', 'a/zz/c'):
+        def mk_abs(c, akey=akey):
+            cfg = _cfg(c)
+            c.ghost['cfg'] = cfg
+            c.ghost['before'] = copy.deepcopy(cfg.store)
+            return (cfg, akey), {}
+
+        def post_abs(c, a, kw, r, akey=akey):
+            _obl(c, 'post:absent-entry-must-raise-like-nested-indexing', False, 'returned %r' % (r,))
+
+        def exc_abs(c, a, kw, ex, akey=akey):
+            _obl(c, 'exc:KeyError-like-nested-indexing', isinstance(ex, KeyError), '%s: %s' % (type(ex).__name__, ex))
+            _obl(c, 'exc:frame-store-unchanged', c.ghost['cfg'].store == c.ghost['before'])
+        method_unit('keypath:get-absent[%s]' % akey, 'SiftConfig.__getitem__', mk_abs, post_abs, raises={Exception: exc_abs})
+        method_unit('keypath:del-absent[%s]' % akey, 'SiftConfig.__delitem__', mk_abs, post_abs, raises={Exception: exc_abs})
+
     # ---- new top-level / nested key creation through set
     def mk_setnew(c):
         cfg = _cfg(c)
@@ -449,6 +466,10 @@ def _apply_edits(cfg, edits):
         v = tuple(val) if isinstance(val, list) and key.endswith('rilling_thresh') else val
         if isinstance(val, dict) and val.get('__array__'):
             v = np.array(val['__array__'])
+        if isinstance(val, dict) and '__tuple__' in val:          # a tuple, nested tuples included: [[2, 3]] stands for ((2, 3),)
+            def _tup(o):
+                return tuple(_tup(q) for q in o) if isinstance(o, list) else o
+            v = _tup(val['__tuple__'])
         cfg[key] = v
         d = ref
         for p in parts[:-1]:
@@ -555,6 +576,36 @@ def replay(w):
                 del d[parts[-1]]
                 if _norm(dict(cfg)) != _norm(ref):
                     return True, 'del cfg[%r] removed something else' % key
+                # the deleted path, and a sibling path that never existed, are ABSENT: reading them by key path must do what nested indexing
+                # does (raise KeyError), and the mapping interface built on it (in / get / setdefault / pop) must follow
+                def nested(store, pp):
+                    d_ = store
+                    for q in pp:
+                        d_ = d_[q]
+                    return d_
+
+                def outcome(f):
+                    try:
+                        return ('ok', _norm(f()))
+                    except Exception as ex:
+                        return ('raises', type(ex).__name__)
+                for akey in (key, '/'.join(parts[:-1] + ['no_such_option'])):
+                    ap = akey.split('/')
+                    a, b = outcome(lambda: cfg[akey]), outcome(lambda: nested(cfg.store, ap))
+                    if a != b:
+                        return True, 'reading the absent entry cfg[%r] %s, nested indexing %s' % (akey, a, b)
+                    if (akey in cfg) != (b[0] == 'ok'):
+                        return True, '%r in cfg is %s although nested indexing %s' % (akey, akey in cfg, b)
+                    g = outcome(lambda: cfg.get(akey, 'the-default'))
+                    if g != ('ok', 'the-default'):
+                        return True, 'cfg.get(%r, default) on an absent entry %s' % (akey, g)
+                    pz = outcome(lambda: cfg.pop(akey, 'the-default'))
+                    if pz != ('ok', 'the-default'):
+                        return True, 'cfg.pop(%r, default) on an absent entry %s' % (akey, pz)
+                sd = outcome(lambda: cfg.setdefault(key, 7))
+                rd = outcome(lambda: nested(cfg.store, parts))
+                if sd != ('ok', 7) or rd != ('ok', 7):
+                    return True, 'cfg.setdefault(%r, 7) on the deleted entry %s and nested indexing then %s' % (key, sd, rd)
             return False, 'ok'
         if w.get('kind') == 'deep':
             cfg = S.get_config(w['variant'])
@@ -602,6 +653,8 @@ EDITS = [
     [['extrema_opts/pad_width', 4], ['extrema_opts/mag_pad_opts/stat_length', 2]],
     [['envelope_opts/interp_method', 'mono_pchip'], ['imf_opts/energy_thresh', None], ['sift_thresh', 1e-6]],
     [['imf_opts/sd_thresh', 0.05], ['extrema_opts/loc_pad_opts/reflect_type', 'odd'], ['extrema_opts/parabolic_extrema', True]],
+    # numpy.pad options in their documented per-axis form: a tuple inside a tuple, ((before, after),)
+    [['extrema_opts/mag_pad_opts/stat_length', {'__tuple__': [[2, 3]]}], ['imf_opts/rilling_thresh', [0.05, 0.5, 0.05]]],
 ]
 
 
